@@ -4,8 +4,13 @@
 //!      aggregate compared with the left-to-right fold of a plain array.
 //! C02: the same state spaces (so every configuration of pending modifiers is reached) with the two
 //!      boundary searches as judged transitions.
+//!
+//! Next to the explorations (closures and all histories up to a depth, per algebra and size) there are two
+//! families of DIRECTED histories that cover size classes: the size sweep (every n up to 40, neighbours of the
+//! powers of two up to 1025) and the large trees of `big.rs` (n around 2^19, 10^6, 2^20).
 
 mod alg;
+mod big;
 
 use alg::*;
 use rlib_segtree::segtree_items::{Combinator, MaxAdd, MinAdd, SumAdd};
@@ -28,6 +33,9 @@ enum Act {
     Ask(u16, u16),
     Lb(u16, Pred),
     LbRev(u16, Pred),
+    /// a search whose predicate panics at its k-th evaluation (the harness catches the panic, as a caller may)
+    LbAbort(u16, Pred, u8),
+    LbRevAbort(u16, Pred, u8),
     Debug,
 }
 
@@ -35,11 +43,15 @@ struct St<A: Alg> {
     tree: Segtree<A::T, A::M>,
     model: Vec<A::E>,
     fresh: u32,
+    /// some earlier search of the history was aborted by a panic of the user's predicate.  The node array
+    /// cannot show whether that left a trace, so such a state is kept apart from the same node array reached
+    /// without an aborted search (part of the canonical form).
+    aborted: bool,
 }
 
 impl<A: Alg> Clone for St<A> {
     fn clone(&self) -> Self {
-        St { tree: self.tree.clone(), model: self.model.clone(), fresh: self.fresh }
+        St { tree: self.tree.clone(), model: self.model.clone(), fresh: self.fresh, aborted: self.aborted }
     }
 }
 
@@ -58,15 +70,19 @@ struct Sys<A: Alg> {
     all_inits: bool,
     /// elements carry stale pending modifiers (read back from another tree)
     dirty: bool,
+    /// the alphabet also contains searches that are aborted by a panic of the user's predicate
+    aborts: bool,
     /// range modifications not offered because they would take a covered element out of the domain
     /// (counted once per state they were withheld in)
     skipped: std::sync::atomic::AtomicU64,
+    /// searches that really were aborted by the predicate's panic (the others ended before the k-th evaluation)
+    aborted_calls: std::sync::atomic::AtomicU64,
     _p: std::marker::PhantomData<A>,
 }
 
 impl<A: Alg> Sys<A> {
     fn new(n: usize, mode: Mode, all_inits: bool) -> Self {
-        Sys { n, mode, all_inits, dirty: false, skipped: std::sync::atomic::AtomicU64::new(0), _p: std::marker::PhantomData }
+        Sys { n, mode, all_inits, dirty: false, aborts: false, skipped: std::sync::atomic::AtomicU64::new(0), aborted_calls: std::sync::atomic::AtomicU64::new(0), _p: std::marker::PhantomData }
     }
 
     fn check_all_singles(&self, s: &St<A>) -> Result<(), String> {
@@ -85,6 +101,72 @@ impl<A: Alg> Sys<A> {
             return Err(format!("ask(0,{}) would return {:?}, fold of the plain array is {:?}", self.n - 1, got, exp));
         }
         Ok(())
+    }
+}
+
+impl<A: Alg> Sys<A> {
+    /// One boundary search from `pos` (rightwards if `fwd`), judged: the returned index, and every aggregate
+    /// the predicate was shown.  With `abort_at = Some(k)` the predicate panics at its k-th evaluation and the
+    /// harness catches the panic, as a caller may: nothing is demanded of that call, but the logical array
+    /// must be unchanged (the invariant is checked in the state reached) and every later operation is judged
+    /// as usual.  A search that ends before the k-th evaluation is an ordinary search and judged as one; a
+    /// panic that is not the predicate's own is the library's and a violation.
+    fn search(&self, s: &mut St<A>, fwd: bool, pos: usize, p: &Pred, abort_at: Option<u8>) -> Result<u64, String> {
+        let name = if fwd { "lower_bound" } else { "lower_bound_rev" };
+        let log: RefCell<Vec<A::Obs>> = RefCell::new(vec![]);
+        let f = |t: &A::T| {
+            let o = A::observe(t);
+            let h = A::holds(p, &o);
+            log.borrow_mut().push(o);
+            if abort_at == Some(log.borrow().len().min(255) as u8) {
+                panic!("the predicate panics");
+            }
+            h
+        };
+        let model = &s.model;
+        let tree = &mut s.tree;
+        let got = match abort_at {
+            None => {
+                if fwd {
+                    tree.lower_bound(pos, f)
+                } else {
+                    tree.lower_bound_rev(pos, f)
+                }
+            }
+            Some(k) => match catch(|| if fwd { tree.lower_bound(pos, f) } else { tree.lower_bound_rev(pos, f) }) {
+                Ok(got) => got,
+                Err(_) if log.borrow().len() >= k as usize => {
+                    s.aborted = true;
+                    self.aborted_calls.fetch_add(1, std::sync::atomic::Ordering::Relaxed);
+                    return Ok(1);
+                }
+                Err(m) => return Err(format!("{name}({pos}, {:?}) panicked by itself (the predicate had been evaluated {} times and does not panic before its evaluation {k}): {m}", p, log.borrow().len())),
+            },
+        };
+        let exp = if fwd { (pos..self.n).find(|&r| A::holds_on(p, model, pos, r)) } else { (0..=pos).rev().find(|&l| A::holds_on(p, model, l, pos)) };
+        if got != exp {
+            return Err(if fwd {
+                format!("lower_bound({pos}, {:?}) returned {:?}; smallest r with the predicate true on fold([{pos}..=r]) of {:?} is {:?}", p, got, model, exp)
+            } else {
+                format!("lower_bound_rev({pos}, {:?}) returned {:?}; largest l with the predicate true on fold([l..={pos}]) of {:?} is {:?}", p, got, model, exp)
+            });
+        }
+        for o in log.into_inner() {
+            let ok = match (A::obs_len(&o), fwd) {
+                (Some(k), true) => k >= 1 && pos + k <= self.n && A::accept(&o, &model[pos..pos + k]),
+                (Some(k), false) => k >= 1 && k <= pos + 1 && A::accept(&o, &model[pos + 1 - k..=pos]),
+                (None, true) => (pos..self.n).any(|r| A::accept(&o, &model[pos..=r])),
+                (None, false) => (0..=pos).any(|l| A::accept(&o, &model[l..=pos])),
+            };
+            if !ok {
+                return Err(if fwd {
+                    format!("lower_bound({pos}, {:?}) showed the predicate the aggregate {:?}, which is not the in-order merge of [{pos}..=r] for any r (array {:?})", p, o, model)
+                } else {
+                    format!("lower_bound_rev({pos}, {:?}) showed the predicate the aggregate {:?}, which is not the in-order merge of [l..={pos}] for any l (array {:?})", p, o, model)
+                });
+            }
+        }
+        Ok(fp(&got))
     }
 }
 
@@ -171,7 +253,7 @@ impl<A: Alg> System for Sys<A> {
             }
             _ => return Err("not a constructor".into()),
         };
-        Ok(St { tree, model, fresh })
+        Ok(St { tree, model, fresh, aborted: false })
     }
 
     fn actions(&self, s: &St<A>) -> Vec<Act> {
@@ -206,13 +288,27 @@ impl<A: Alg> System for Sys<A> {
             }
         }
         if self.mode == Mode::C02 {
-            for p in A::preds(self.n) {
-                if !A::pred_ok(&p, &s.model) {
-                    continue;
-                }
+            // every predicate of the family from every position, in each direction in which it is monotone
+            // along the searched side of that position (two-sided predicates: both; anchored ones: one)
+            for p in A::preds(self.n).into_iter().chain(A::extra_preds(self.n)) {
                 for i in 0..n {
-                    v.push(Act::Lb(i, p.clone()));
-                    v.push(Act::LbRev(i, p.clone()));
+                    if A::pred_ok_at(&p, &s.model, i as usize, true) {
+                        v.push(Act::Lb(i, p.clone()));
+                    }
+                    if A::pred_ok_at(&p, &s.model, i as usize, false) {
+                        v.push(Act::LbRev(i, p.clone()));
+                    }
+                }
+            }
+            // aborted searches: an always-false and a length predicate that panic at their 1st, 2nd, 3rd evaluation
+            if self.aborts {
+                for p in A::preds(self.n).into_iter().filter(|p| *p == Pred::LenGe(2) || *p == Pred::LenGe(n + 1)) {
+                    for i in 0..n {
+                        for k in 1..=3u8 {
+                            v.push(Act::LbAbort(i, p.clone(), k));
+                            v.push(Act::LbRevAbort(i, p.clone(), k));
+                        }
+                    }
                 }
             }
         } else {
@@ -266,54 +362,10 @@ impl<A: Alg> System for Sys<A> {
                 }
                 Ok(0)
             }
-            Act::Lb(l, p) => {
-                let l = *l as usize;
-                let log: RefCell<Vec<A::Obs>> = RefCell::new(vec![]);
-                let got = s.tree.lower_bound(l, |t: &A::T| {
-                    let o = A::observe(t);
-                    let h = A::holds(p, &o);
-                    log.borrow_mut().push(o);
-                    h
-                });
-                let exp = (l..self.n).find(|&r| A::holds_on(p, &s.model, l, r));
-                if got != exp {
-                    return Err(format!("lower_bound({l}, {:?}) returned {:?}; smallest r with the predicate true on fold([{l}..=r]) of {:?} is {:?}", p, got, s.model, exp));
-                }
-                for o in log.into_inner() {
-                    let ok = match A::obs_len(&o) {
-                        Some(k) => k >= 1 && l + k <= self.n && A::accept(&o, &s.model[l..l + k]),
-                        None => (l..self.n).any(|r| A::accept(&o, &s.model[l..=r])),
-                    };
-                    if !ok {
-                        return Err(format!("lower_bound({l}, {:?}) showed the predicate the aggregate {:?}, which is not the in-order merge of [{l}..=r] for any r (array {:?})", p, o, s.model));
-                    }
-                }
-                Ok(fp(&got))
-            }
-            Act::LbRev(r, p) => {
-                let r = *r as usize;
-                let log: RefCell<Vec<A::Obs>> = RefCell::new(vec![]);
-                let got = s.tree.lower_bound_rev(r, |t: &A::T| {
-                    let o = A::observe(t);
-                    let h = A::holds(p, &o);
-                    log.borrow_mut().push(o);
-                    h
-                });
-                let exp = (0..=r).rev().find(|&l| A::holds_on(p, &s.model, l, r));
-                if got != exp {
-                    return Err(format!("lower_bound_rev({r}, {:?}) returned {:?}; largest l with the predicate true on fold([l..={r}]) of {:?} is {:?}", p, got, s.model, exp));
-                }
-                for o in log.into_inner() {
-                    let ok = match A::obs_len(&o) {
-                        Some(k) => k >= 1 && k <= r + 1 && A::accept(&o, &s.model[r + 1 - k..=r]),
-                        None => (0..=r).any(|l| A::accept(&o, &s.model[l..=r])),
-                    };
-                    if !ok {
-                        return Err(format!("lower_bound_rev({r}, {:?}) showed the predicate the aggregate {:?}, which is not the in-order merge of [l..={r}] for any l (array {:?})", p, o, s.model));
-                    }
-                }
-                Ok(fp(&got))
-            }
+            Act::Lb(l, p) => self.search(s, true, *l as usize, p, None),
+            Act::LbRev(r, p) => self.search(s, false, *r as usize, p, None),
+            Act::LbAbort(l, p, k) => self.search(s, true, *l as usize, p, Some(*k)),
+            Act::LbRevAbort(r, p, k) => self.search(s, false, *r as usize, p, Some(*k)),
         }
     }
 
@@ -340,6 +392,9 @@ impl<A: Alg> System for Sys<A> {
         for e in &s.model {
             A::encode_elem(e, &mut k);
         }
+        if s.aborted {
+            k.push(0xfe);
+        }
         k
     }
 
@@ -356,6 +411,8 @@ impl<A: Alg> System for Sys<A> {
             Act::Ask(..) => "ask",
             Act::Lb(..) => "lower_bound",
             Act::LbRev(..) => "lower_bound_rev",
+            Act::LbAbort(..) => "lower_bound_aborted",
+            Act::LbRevAbort(..) => "lower_bound_rev_aborted",
             Act::Debug => "debug",
         }
     }
@@ -373,61 +430,49 @@ struct Part {
     defmod: DefaultMod,
     defmod_may_be_identity: bool,
     skipped_out_of_domain: u64,
+    aborted_searches: u64,
+}
+
+/// The label of a part is the algebra's name, optionally followed by the families that widen its alphabet:
+/// `+stale-tags` (elements that carry a stale pending modifier), `+aborted-searches` (searches aborted by a
+/// panic of the predicate).  Returns (algebra, stale tags, aborted searches).
+fn split_label(label: &str) -> (&str, bool, bool) {
+    let (label, aborts) = label.strip_suffix("+aborted-searches").map_or((label, false), |b| (b, true));
+    let (label, dirty) = label.strip_suffix("+stale-tags").map_or((label, false), |b| (b, true));
+    (label, dirty, aborts)
 }
 
 fn run_part<A: Alg>(label: &str, n: usize, mode: Mode, depth: Option<usize>, all_inits: bool, wall: f64) -> Part {
     let mut sys = Sys::<A>::new(n, mode, all_inits);
-    if let Some(base) = label.strip_suffix("+stale-tags") {
-        let _ = base;
-        sys.dirty = true;
-    }
+    (_, sys.dirty, sys.aborts) = split_label(label);
     // thorough parts are many and deep: a part that would grow beyond the cap is stopped there (reported as
     // cap_hit with the depth it completed) instead of exhausting the machine's memory
     let cfg = ExploreCfg { max_depth: depth, max_states: if wall > 100.0 { 8_000_000 } else { 30_000_000 }, wall_cap_s: wall };
     let t0 = std::time::Instant::now();
     let res = explore(&sys, &cfg);
-    Part { name: label.to_string(), n, depth, res, wall: t0.elapsed().as_secs_f64(), defmod: default_mod::<A>(), defmod_may_be_identity: A::DEFAULT_MOD_IS_IDENTITY, skipped_out_of_domain: sys.skipped.load(std::sync::atomic::Ordering::Relaxed) }
+    Part { name: label.to_string(), n, depth, res, wall: t0.elapsed().as_secs_f64(), defmod: default_mod::<A>(), defmod_may_be_identity: A::DEFAULT_MOD_IS_IDENTITY, skipped_out_of_domain: sys.skipped.load(std::sync::atomic::Ordering::Relaxed), aborted_searches: sys.aborted_calls.load(std::sync::atomic::Ordering::Relaxed) }
 }
 
 fn replay_part(label: &str, n: usize, mode: Mode, hist: &[Value]) -> Result<(), String> {
+    let (base, dirty, aborts) = split_label(label);
     macro_rules! go {
-        ($a:ty) => {
-            replay_history(&Sys::<$a>::new(n, mode, true), hist)
-        };
-    }
-    macro_rules! god {
         ($a:ty) => {{
             let mut sys = Sys::<$a>::new(n, mode, true);
-            sys.dirty = true;
+            (sys.dirty, sys.aborts) = (dirty, aborts);
             replay_history(&sys, hist)
         }};
     }
-    if let Some(base) = label.strip_suffix("+stale-tags") {
-        return match base {
-            "W" => god!(AlgW),
-            "A3" => god!(AlgA3),
-            "Fr" => god!(AlgFr),
-            "SumAdd<Z4>" => god!(AlgSumAddZ4),
-            "MinAdd<i64>" => god!(AlgMinAdd),
-            "MaxAdd<i64>" => god!(AlgMaxAdd),
-            "SumAdd<i64>" => god!(AlgSumAdd),
-            "Flip" => god!(AlgFlip),
-            "FlipZ" => god!(AlgFlipZ),
-            "AP" => god!(AlgAp),
-            "Comb<MinAdd,MaxAdd>" => god!(Comb<AlgMinAdd, AlgMaxAdd>),
-            "Comb<Comb<MinAdd,MaxAdd>,SumAdd>" => god!(Comb<Comb<AlgMinAdd, AlgMaxAdd>, AlgSumAdd>),
-            _ => {
-                eprintln!("replay: unknown algebra {label}");
-                std::process::exit(2)
-            }
-        };
-    }
-    match label {
+    match base {
         "W" => go!(AlgW),
         "A3" => go!(AlgA3),
         "Fr" => go!(AlgFr),
         "Sum<Z3>" => go!(AlgSumZ3),
+        "SumAdd<Z2>" => go!(AlgSumAddZ2),
+        "SumAdd<Z3>" => go!(AlgSumAddZ3),
         "SumAdd<Z4>" => go!(AlgSumAddZ4),
+        "SumAdd<Z5>" => go!(AlgSumAddZ5),
+        "SumAdd<Z7>" => go!(AlgSumAddZ7),
+        "SumAdd<Z256>" => go!(AlgSumAddZ256),
         "Min<u8>" => go!(AlgMinU8),
         "Max<u8>" => go!(AlgMaxU8),
         "MinAdd<i64>" => go!(AlgMinAdd),
@@ -549,9 +594,29 @@ impl WithAlg for ReplayPair<'_> {
     }
 }
 
+type Job = Box<dyn FnOnce() -> Part + Send>;
+
+/// the list of explorations to run: (algebra, n, depth bound) each
+struct Jobs {
+    mode: Mode,
+    wall: f64,
+    v: Vec<Job>,
+}
+
+impl Jobs {
+    /// all three constructor families are initial states
+    fn add<A: Alg>(&mut self, label: &'static str, n: usize, depth: Option<usize>) {
+        self.add_with::<A>(label, n, depth, true)
+    }
+    /// `all_inits = false`: only `from_iter` of every element vector
+    fn add_with<A: Alg>(&mut self, label: &'static str, n: usize, depth: Option<usize>, all_inits: bool) {
+        let (mode, wall) = (self.mode, self.wall);
+        self.v.push(Box::new(move || run_part::<A>(label, n, mode, depth, all_inits, wall)));
+    }
+}
+
 /// The pair family: every (label, n) is a small independent exploration, so they run side by side.
-fn pair_parts(mode: Mode, quick: bool, wall: f64) -> Vec<Part> {
-    use rayon::prelude::*;
+fn pair_parts(mode: Mode, quick: bool, wall: f64) -> Vec<Job> {
     let bounded: &[(usize, usize)] = if quick { &[(1, 4), (2, 4), (3, 3), (4, 2)] } else { &[(1, 5), (2, 5), (3, 4), (4, 3), (5, 2)] };
     let mut jobs: Vec<RunPair> = vec![];
     for &(label, sched) in PAIRS {
@@ -562,7 +627,7 @@ fn pair_parts(mode: Mode, quick: bool, wall: f64) -> Vec<Part> {
             Sched::Closing(q, t) => jobs.extend(bounded.iter().map(|&(n, d)| RunPair { label, n, mode, depth: if n <= (if quick { q } else { t }) { None } else { Some(d) }, wall })),
         }
     }
-    jobs.into_par_iter().map(|j| with_pair(j.label, j).unwrap()).collect()
+    jobs.into_iter().map(|j| Box::new(move || with_pair(j.label, j).unwrap()) as Job).collect()
 }
 
 struct Sweep {
@@ -650,7 +715,7 @@ fn sweep_history(n: usize, ctor: u8, mode: Mode) -> Vec<Act> {
     h
 }
 
-fn size_sweep(mode: Mode, quick: bool) -> Sweep {
+fn size_sweep<A: Alg>(mode: Mode, quick: bool) -> Sweep {
     use rayon::prelude::*;
     let mut sizes: Vec<usize> = if quick { (1..=40).collect() } else { (1..=130).collect() };
     sizes.extend([47, 48, 49, 63, 64, 65, 96, 127, 128, 129, 255, 256, 257, 511, 512, 513, 1000, 1023, 1024, 1025]);
@@ -665,7 +730,7 @@ fn size_sweep(mode: Mode, quick: bool) -> Sweep {
         .map(|&(n, c)| {
             let h = sweep_history(n, c, mode);
             let vals: Vec<Value> = h.iter().map(|a| serde_json::to_value(a).unwrap()).collect();
-            let sys = Sys::<AlgFr>::new(n, mode, true);
+            let sys = Sys::<A>::new(n, mode, true);
             match replay_history(&sys, &vals) {
                 Ok(()) => (n, h.len() as u64, None),
                 Err(m) => {
@@ -695,10 +760,42 @@ fn size_sweep(mode: Mode, quick: bool) -> Sweep {
     sw
 }
 
+struct Large {
+    sizes: Vec<usize>,
+    /// (item, n, constructor, what happened)
+    runs: Vec<(&'static str, usize, &'static str, big::BigOut)>,
+    wall: f64,
+}
+
+/// Part H: one directed history per (item, n, constructor) on large trees, side by side
+fn large_part(mode: Mode, quick: bool) -> Large {
+    use rayon::prelude::*;
+    let t0 = std::time::Instant::now();
+    let sizes = big::sizes(quick);
+    let mut jobs: Vec<(&'static str, usize, usize)> = vec![];
+    for item in big::ITEMS {
+        for &n in &sizes {
+            jobs.extend((0..big::CTORS.len()).map(|c| (item, n, c)));
+        }
+    }
+    let runs = jobs.into_par_iter().map(|(item, n, c)| (item, n, big::CTORS[c], big::run_named(item, n, c, mode == Mode::C02).unwrap())).collect();
+    Large { sizes, runs, wall: t0.elapsed().as_secs_f64() }
+}
+
 fn confirm_mode(mode: Mode) -> impl Fn(&Value) -> Result<(), String> {
     move |v: &Value| {
         if v["kind"] == "from" {
             return check_from();
+        }
+        if v["kind"] == "large" {
+            let ctor = big::CTORS.iter().position(|c| v["constructor"] == *c).unwrap_or(usize::MAX);
+            return match big::run_named(v["item"].as_str().unwrap_or(""), v["n"].as_u64().unwrap_or(0) as usize, ctor, mode == Mode::C02) {
+                Some(out) => out.fail.map_or(Ok(()), |(call, msg)| Err(format!("{call}: {msg}"))),
+                None => {
+                    eprintln!("replay: not a large-tree case: {v}");
+                    std::process::exit(2)
+                }
+            };
         }
         let hist: Vec<Value> = v["history"].as_array().unwrap().clone();
         replay_part(v["algebra"].as_str().unwrap(), v["n"].as_u64().unwrap() as usize, mode, &hist)
@@ -738,104 +835,165 @@ fn main() {
     let mut run = Run::new(&args, "seg", "model_checking");
     let quick = args.tier == Tier::Quick;
     let wall = if quick { 40.0 } else { 900.0 };
-    let mut parts: Vec<Part> = vec![];
+    // Every part is an independent exploration.  The quick tier runs them side by side (rayon; the explorer of
+    // each part is parallel as well, so idle threads help with the large parts); the thorough tier runs the
+    // large parts one after the other, because several of them need most of the machine's memory.
+    let mut jobs = Jobs { mode, wall, v: vec![] };
 
     // Part A: closure over W for every n (all three constructor families as initial states)
     let max_w = if quick { 6 } else { 7 };
     for n in 1..=max_w {
-        parts.push(run_part::<AlgW>("W", n, mode, None, true, wall));
+        jobs.add::<AlgW>("W", n, None);
     }
     // second closing algebra
     let max_a3 = if quick { 3 } else { 4 };
     for n in 1..=max_a3 {
-        parts.push(run_part::<AlgA3>("A3", n, mode, None, true, wall));
+        jobs.add::<AlgA3>("A3", n, None);
     }
     // Part B: free algebra, bounded depth
     let fr: &[(usize, usize)] = if quick { &[(1, 4), (2, 4), (3, 4), (4, 3), (5, 3), (6, 3), (7, 2), (8, 2), (9, 2)] } else { &[(1, 5), (2, 5), (3, 5), (4, 4), (5, 4), (6, 4), (7, 3), (8, 3), (9, 3)] };
     for &(n, d) in fr {
-        parts.push(run_part::<AlgFr>("Fr", n, mode, Some(d), true, wall));
+        jobs.add::<AlgFr>("Fr", n, Some(d));
     }
     // Part C: built-in items
     let cn = if quick { 4 } else { 5 };
     for n in 1..=cn {
-        parts.push(run_part::<AlgSumZ3>("Sum<Z3>", n, mode, None, true, wall));
-        parts.push(run_part::<AlgMinU8>("Min<u8>", n, mode, None, true, wall));
-        parts.push(run_part::<AlgMaxU8>("Max<u8>", n, mode, None, true, wall));
+        jobs.add::<AlgSumZ3>("Sum<Z3>", n, None);
+        jobs.add::<AlgMinU8>("Min<u8>", n, None);
+        jobs.add::<AlgMaxU8>("Max<u8>", n, None);
     }
     for n in 1..=(if quick { 3 } else { 4 }) {
-        parts.push(run_part::<AlgSumAddZ4>("SumAdd<Z4>", n, mode, None, true, wall));
+        jobs.add::<AlgSumAddZ4>("SumAdd<Z4>", n, None);
+    }
+    // Part C3: the lazy sum over scalar types in which small integers WRAP.  `SumAdd<T>` counts the elements of a
+    // node in T, so over Z/m an inner node of length = 1 (mod m) has the `len` of a leaf and one of length = 0
+    // (mod m) the `len` of the empty aggregate.  For every modulus the sizes are those whose trees contain
+    // inner nodes with these lengths (m = 2: lengths 2, 3, 4; m = 3: 3, 4, 6, 7; m = 4: 4, 5; m = 5: 5, 6; m = 7: 7,
+    // 8): closure where it is small, all histories up to a depth above.  Sums in Z/m are not ordered, so
+    // there is no monotone predicate to search with: C01 only.
+    if mode == Mode::C01 {
+        let zs: &[(u16, usize, Option<usize>)] = if quick {
+            &[(2, 1, None), (2, 2, None), (2, 3, None), (2, 4, None), (3, 3, None), (3, 4, Some(3)), (3, 6, Some(2)), (3, 7, Some(2)), (4, 4, Some(3)), (4, 5, Some(2)), (5, 5, Some(2)), (5, 6, Some(2)), (7, 7, Some(2)), (7, 8, Some(2))]
+        } else {
+            &[(2, 1, None), (2, 2, None), (2, 3, None), (2, 4, None), (2, 5, None), (3, 3, None), (3, 4, None), (3, 6, Some(3)), (3, 7, Some(2)), (4, 5, Some(3)), (5, 5, Some(3)), (5, 6, Some(3)), (7, 7, Some(2)), (7, 8, Some(2))]
+        };
+        for &(m, n, d) in zs {
+            // (from n = 6 on the initial states are `from_iter` of every vector only)
+            match m {
+                2 => jobs.add_with::<AlgSumAddZ2>("SumAdd<Z2>", n, d, n < 6),
+                3 => jobs.add_with::<AlgSumAddZ3>("SumAdd<Z3>", n, d, n < 6),
+                4 => jobs.add_with::<AlgSumAddZ4>("SumAdd<Z4>", n, d, n < 6),
+                5 => jobs.add_with::<AlgSumAddZ5>("SumAdd<Z5>", n, d, n < 6),
+                _ => jobs.add_with::<AlgSumAddZ7>("SumAdd<Z7>", n, d, n < 6),
+            }
+        }
     }
     let bi: &[(usize, usize)] = if quick { &[(1, 4), (2, 4), (3, 3), (4, 2), (5, 1)] } else { &[(1, 5), (2, 5), (3, 4), (4, 3), (5, 2), (6, 2)] };
     for &(n, bd) in bi {
-        parts.push(run_part::<AlgMinAdd>("MinAdd<i64>", n, mode, Some(bd), true, wall));
-        parts.push(run_part::<AlgMaxAdd>("MaxAdd<i64>", n, mode, Some(bd), true, wall));
-        parts.push(run_part::<AlgSumAdd>("SumAdd<i64>", n, mode, Some(bd), true, wall));
-        parts.push(run_part::<Comb<AlgMinAdd, AlgMaxAdd>>("Comb<MinAdd,MaxAdd>", n, mode, Some(bd), true, wall));
-        parts.push(run_part::<Comb<Comb<AlgMinAdd, AlgMaxAdd>, AlgSumAdd>>("Comb<Comb<MinAdd,MaxAdd>,SumAdd>", n, mode, Some(bd), true, wall));
+        jobs.add::<AlgMinAdd>("MinAdd<i64>", n, Some(bd));
+        jobs.add::<AlgMaxAdd>("MaxAdd<i64>", n, Some(bd));
+        jobs.add::<AlgSumAdd>("SumAdd<i64>", n, Some(bd));
+        jobs.add::<Comb<AlgMinAdd, AlgMaxAdd>>("Comb<MinAdd,MaxAdd>", n, Some(bd));
+        jobs.add::<Comb<Comb<AlgMinAdd, AlgMaxAdd>, AlgSumAdd>>("Comb<Comb<MinAdd,MaxAdd>,SumAdd>", n, Some(bd));
     }
     for n in 1..=(if quick { 3 } else { 4 }) {
-        parts.push(run_part::<Comb<AlgSumZ3, Comb<AlgMinU8, AlgMaxU8>>>("Comb<Sum<Z3>,Comb<Min,Max>>", n, mode, None, true, wall));
+        jobs.add::<Comb<AlgSumZ3, Comb<AlgMinU8, AlgMaxU8>>>("Comb<Sum<Z3>,Comb<Min,Max>>", n, None);
     }
 
     // Part C2: a lazy item with a data-less modifier (M = (), and M = a zero-sized struct), a Combinator of two
     // NON-commutative parts, elements at the extreme values of the type, records compared by key only
     for n in 1..=(if quick { 5 } else { 6 }) {
-        parts.push(run_part::<AlgFlip>("Flip", n, mode, None, true, wall));
-        parts.push(run_part::<AlgFlipZ>("FlipZ", n, mode, None, true, wall));
+        jobs.add::<AlgFlip>("Flip", n, None);
+        jobs.add::<AlgFlipZ>("FlipZ", n, None);
     }
     for n in 1..=(if quick { 4 } else { 5 }) {
-        parts.push(run_part::<Comb<AlgW, AlgW>>("Comb<W,W>", n, mode, None, true, wall));
+        jobs.add::<Comb<AlgW, AlgW>>("Comb<W,W>", n, None);
     }
     // a lazy item whose push treats the two children differently (arithmetic progression)
     let ap: &[(usize, Option<usize>)] = if quick { &[(1, None), (2, None), (3, Some(4)), (4, Some(3)), (5, Some(2))] } else { &[(1, None), (2, None), (3, None), (4, Some(4)), (5, Some(3)), (6, Some(3))] };
     for &(n, d) in ap {
-        parts.push(run_part::<AlgAp>("AP", n, mode, d, true, wall));
+        jobs.add::<AlgAp>("AP", n, d);
     }
     for n in 1..=(if quick { 3 } else { 4 }) {
-        parts.push(run_part::<Comb<AlgFlip, Comb<AlgFlip, AlgFlip>>>("Comb<Flip,Comb<Flip,Flip>>", n, mode, None, true, wall));
+        jobs.add::<Comb<AlgFlip, Comb<AlgFlip, AlgFlip>>>("Comb<Flip,Comb<Flip,Flip>>", n, None);
     }
     let ext: &[(usize, usize)] = if quick { &[(1, 3), (2, 3), (3, 3), (4, 2)] } else { &[(1, 4), (2, 4), (3, 4), (4, 3), (5, 3)] };
     for &(n, d) in ext {
-        parts.push(run_part::<AlgMinAddExt>("MinAdd@MAX", n, mode, Some(d), true, wall));
-        parts.push(run_part::<AlgMaxAddExt>("MaxAdd@MIN", n, mode, Some(d), true, wall));
+        jobs.add::<AlgMinAddExt>("MinAdd@MAX", n, Some(d));
+        jobs.add::<AlgMaxAddExt>("MaxAdd@MIN", n, Some(d));
         // the opposite limits and limit-sized modifiers: up to n = 4 in both tiers (the thorough tier is long as it is)
         if n <= 4 {
-            parts.push(run_part::<AlgMinAddLow>("MinAdd@MIN", n, mode, Some(d), true, wall));
-            parts.push(run_part::<AlgMaxAddHigh>("MaxAdd@MAX", n, mode, Some(d), true, wall));
-            parts.push(run_part::<AlgMinAddStep>("MinAdd+=MAX", n, mode, Some(d), true, wall));
-            parts.push(run_part::<AlgMaxAddStep>("MaxAdd+=MIN", n, mode, Some(d), true, wall));
+            jobs.add::<AlgMinAddLow>("MinAdd@MIN", n, Some(d));
+            jobs.add::<AlgMaxAddHigh>("MaxAdd@MAX", n, Some(d));
+            jobs.add::<AlgMinAddStep>("MinAdd+=MAX", n, Some(d));
+            jobs.add::<AlgMaxAddStep>("MaxAdd+=MIN", n, Some(d));
         }
-        parts.push(run_part::<AlgMinRec>("Min<Rec>", n, mode, Some(d), true, wall));
-        parts.push(run_part::<AlgMaxRec>("Max<Rec>", n, mode, Some(d), true, wall));
+        jobs.add::<AlgMinRec>("Min<Rec>", n, Some(d));
+        jobs.add::<AlgMaxRec>("Max<Rec>", n, Some(d));
     }
 
     // Part D: constructors and point assignments fed with elements that carry a stale pending modifier
     // (an element read back from another tree after a range modification), bounded depth
     let dn: &[(usize, usize)] = if quick { &[(1, 3), (2, 3), (3, 3), (4, 2)] } else { &[(1, 4), (2, 4), (3, 4), (4, 3), (5, 2), (6, 2)] };
     for &(n, d) in dn {
-        parts.push(run_part::<AlgW>("W+stale-tags", n, mode, Some(d), true, wall));
-        parts.push(run_part::<AlgA3>("A3+stale-tags", n, mode, Some(d), true, wall));
-        parts.push(run_part::<AlgFr>("Fr+stale-tags", n, mode, Some(d), true, wall));
-        parts.push(run_part::<AlgFlip>("Flip+stale-tags", n, mode, Some(d), true, wall));
-        parts.push(run_part::<AlgFlipZ>("FlipZ+stale-tags", n, mode, Some(d), true, wall));
-        parts.push(run_part::<AlgAp>("AP+stale-tags", n, mode, Some(d), true, wall));
-        parts.push(run_part::<AlgSumAddZ4>("SumAdd<Z4>+stale-tags", n, mode, Some(d), true, wall));
-        parts.push(run_part::<AlgMinAdd>("MinAdd<i64>+stale-tags", n, mode, Some(d), true, wall));
-        parts.push(run_part::<AlgMaxAdd>("MaxAdd<i64>+stale-tags", n, mode, Some(d), true, wall));
-        parts.push(run_part::<AlgSumAdd>("SumAdd<i64>+stale-tags", n, mode, Some(d), true, wall));
-        parts.push(run_part::<Comb<AlgMinAdd, AlgMaxAdd>>("Comb<MinAdd,MaxAdd>+stale-tags", n, mode, Some(d), true, wall));
-        parts.push(run_part::<Comb<Comb<AlgMinAdd, AlgMaxAdd>, AlgSumAdd>>("Comb<Comb<MinAdd,MaxAdd>,SumAdd>+stale-tags", n, mode, Some(d), true, wall));
+        jobs.add::<AlgW>("W+stale-tags", n, Some(d));
+        jobs.add::<AlgA3>("A3+stale-tags", n, Some(d));
+        jobs.add::<AlgFr>("Fr+stale-tags", n, Some(d));
+        jobs.add::<AlgFlip>("Flip+stale-tags", n, Some(d));
+        jobs.add::<AlgFlipZ>("FlipZ+stale-tags", n, Some(d));
+        jobs.add::<AlgAp>("AP+stale-tags", n, Some(d));
+        jobs.add::<AlgSumAddZ4>("SumAdd<Z4>+stale-tags", n, Some(d));
+        jobs.add::<AlgMinAdd>("MinAdd<i64>+stale-tags", n, Some(d));
+        jobs.add::<AlgMaxAdd>("MaxAdd<i64>+stale-tags", n, Some(d));
+        jobs.add::<AlgSumAdd>("SumAdd<i64>+stale-tags", n, Some(d));
+        jobs.add::<Comb<AlgMinAdd, AlgMaxAdd>>("Comb<MinAdd,MaxAdd>+stale-tags", n, Some(d));
+        jobs.add::<Comb<Comb<AlgMinAdd, AlgMaxAdd>, AlgSumAdd>>("Comb<Comb<MinAdd,MaxAdd>,SumAdd>+stale-tags", n, Some(d));
     }
 
-    // Part F: Combinator<built-in, harness item> and Combinator<harness item, built-in> with independent parts
-    let t_pairs = std::time::Instant::now();
-    parts.extend(pair_parts(mode, quick, wall));
-    let pairs_wall = t_pairs.elapsed().as_secs_f64();
+    // Part G (C02): searches ABORTED by a panic of the user's predicate at its 1st, 2nd or 3rd evaluation, which
+    // the harness catches as a caller may.  Nothing is demanded of the aborted call itself, but it is not a
+    // modification: the logical array must be what it was, and every LATER search and query is an ordinary
+    // one and judged as such.  Only the predicate panics (a panic inside an item's merge / push may leave any
+    // tree half updated).  Bounded depth, initial states `from_iter` of every vector; a state reached through an aborted search is kept apart from the
+    // same node array reached without one.
+    if mode == Mode::C02 {
+        let gn: &[(usize, usize)] = if quick { &[(1, 3), (2, 3), (3, 2), (4, 2)] } else { &[(1, 4), (2, 4), (3, 3), (4, 3), (5, 2)] };
+        for &(n, d) in gn {
+            jobs.add_with::<AlgW>("W+aborted-searches", n, Some(d), false);
+            jobs.add_with::<AlgFr>("Fr+aborted-searches", n, Some(d), false);
+            jobs.add_with::<AlgSumAdd>("SumAdd<i64>+aborted-searches", n, Some(d), false);
+        }
+    }
+    let n_main = jobs.v.len();
 
-    // Part E: size sweep — directed histories on the free algebra for many sizes (every n up to 40/130,
-    // and the neighbours of powers of two up to 1025/4097), all three constructors, boundary-targeted
-    // modifications, then ALL (l, r) queries (n <= 40) or all pairs of boundary positions
-    let sweep = size_sweep(mode, quick);
+    // Part F: Combinator<built-in, harness item> and Combinator<harness item, built-in> with independent parts
+    jobs.v.extend(pair_parts(mode, quick, wall));
+    let run_parts = move || {
+        use rayon::prelude::*;
+        let t_parts = std::time::Instant::now();
+        let parts: Vec<Part> = if quick {
+            jobs.v.into_par_iter().map(|j| j()).collect()
+        } else {
+            let pairs = jobs.v.split_off(n_main);
+            let mut parts: Vec<Part> = jobs.v.into_iter().map(|j| j()).collect();
+            parts.extend(pairs.into_par_iter().map(|j| j()).collect::<Vec<Part>>());
+            parts
+        };
+        (parts, t_parts.elapsed().as_secs_f64())
+    };
+    let run_directed = || {
+        // Part E: size sweep — directed histories on the free algebra for many sizes (every n up to 40/130,
+        // and the neighbours of powers of two up to 1025/4097), all three constructors, boundary-targeted
+        // modifications, then ALL (l, r) queries (n <= 40) or all pairs of boundary positions; C01 also on the
+        // crate's lazy sum over a byte that wraps (inner nodes of 256 and 257 elements)
+        let mut sweeps = vec![("Fr", size_sweep::<AlgFr>(mode, quick))];
+        if mode == Mode::C01 {
+            sweeps.push(("SumAdd<Z256>", size_sweep::<AlgSumAddZ256>(mode, quick)));
+        }
+        // Part H: large trees (n around 2^19, 10^6, 2^20), see big.rs
+        (sweeps, large_part(mode, quick))
+    };
+    let ((parts, parts_wall), (sweeps, large)) = if quick { rayon::join(run_parts, run_directed) } else { (run_parts(), run_directed()) };
 
     // What `M::default()` is in every explored algebra (a fact about the harness, not about /repo): it must be
     // a modifier the exploration applies, and the identity only where the modifiers are plain additive
@@ -843,7 +1001,7 @@ fn main() {
     let mut default_mods: Vec<Value> = vec![];
     let mut seen: Vec<&str> = vec![];
     for p in &parts {
-        let name = p.name.strip_suffix("+stale-tags").unwrap_or(&p.name);
+        let name = split_label(&p.name).0;
         if seen.contains(&name) {
             continue;
         }
@@ -873,6 +1031,7 @@ fn main() {
     let mut all_closed = true;
     let mut outcomes = 0u64;
     let mut judged = 0u64;
+    let mut aborted = 0u64;
     let mut reported: Vec<String> = vec![];
     for p in &parts {
         states += p.res.states;
@@ -880,6 +1039,7 @@ fn main() {
         outcomes += p.res.distinct_outcomes;
         let judged_kinds: &[&str] = if mode == Mode::C01 { &["ask", "debug"] } else { &["lower_bound", "lower_bound_rev"] };
         judged += judged_kinds.iter().map(|k| p.res.per_kind.get(k).copied().unwrap_or(0)).sum::<u64>();
+        aborted += p.aborted_searches;
         if p.depth.is_none() && !p.res.closed {
             all_closed = false;
         }
@@ -898,11 +1058,32 @@ fn main() {
             run.violation(Violation::new(sig, format!("[{} n={}] {}", p.name, p.n, f.message), json!({"kind": "history", "algebra": p.name, "n": p.n, "history": f.history})));
         }
     }
-    run.cov("size_sweep", json!({"sizes": sweep.sizes, "histories": sweep.histories, "actions_executed": sweep.actions, "note": "NOT a closure: directed histories per size on the free algebra (3 constructors x boundary-targeted modifies x all or boundary (l,r) queries / searches)"}));
-    if let Some((n, hist, msg)) = sweep.fail {
-        let sig = format!("sweep:Fr:n={}:{}", n, serde_json::to_string(&hist.iter().rev().take(6).rev().collect::<Vec<_>>()).unwrap());
-        run.violation(Violation::new(sig, format!("[size sweep, free algebra, n={n}, history of {} actions] {msg}", hist.len()), json!({"kind": "history", "algebra": "Fr", "n": n, "history": hist})));
+    let mut sweep_cov = vec![];
+    for (label, sweep) in sweeps {
+        sweep_cov.push(json!({"algebra": label, "sizes": sweep.sizes, "histories": sweep.histories, "actions_executed": sweep.actions}));
+        if let Some((n, hist, msg)) = sweep.fail {
+            let sig = format!("sweep:{label}:n={}:{}", n, serde_json::to_string(&hist.iter().rev().take(6).rev().collect::<Vec<_>>()).unwrap());
+            run.violation(Violation::new(sig, format!("[size sweep, {label}, n={n}, history of {} actions] {msg}", hist.len()), json!({"kind": "history", "algebra": label, "n": n, "history": hist})));
+        }
     }
+    run.cov("size_sweep", json!({"sweeps": sweep_cov, "note": "NOT a closure: directed histories per size (3 constructors x boundary-targeted modifies x all or boundary (l,r) queries / searches) on the free algebra Fr and (C01) on the crate's SumAdd over a byte that wraps, whose trees contain inner nodes of 256 and 257 elements"}));
+    // large trees: one report per item, the first failing (n, constructor) in enumeration order
+    let mut large_reported: Vec<&str> = vec![];
+    let mut large_tot = big::BigOut::default();
+    for (item, n, ctor, out) in &large.runs {
+        large_tot.calls += out.calls;
+        large_tot.judged += out.judged;
+        large_tot.predicate_evaluations += out.predicate_evaluations;
+        large_tot.none += out.none;
+        large_tot.at_start += out.at_start;
+        large_tot.at_far_end += out.at_far_end;
+        large_tot.inside += out.inside;
+        if let Some((call, msg)) = out.fail.as_ref().filter(|_| !large_reported.contains(item)) {
+            large_reported.push(item);
+            run.violation(Violation::new(format!("large:{item}:n={n}:{ctor}:{call}"), format!("[large tree, {item}, n={n}, built by {ctor}] {call}: {msg}"), json!({"kind": "large", "item": item, "n": n, "constructor": ctor})));
+        }
+    }
+    run.cov("large_trees", json!({"items": big::ITEMS, "sizes": large.sizes, "constructors": big::CTORS, "histories": large.runs.len(), "calls": large_tot.calls, "judged_calls": large_tot.judged, "predicate_evaluations": large_tot.predicate_evaluations, "searches_answered": {"none": large_tot.none, "start_position": large_tot.at_start, "far_end_of_the_array": large_tot.at_far_end, "inside": large_tot.inside}, "wall_s": (large.wall * 100.0).round() / 100.0, "note": "NOT a closure: one directed history per (item, n, constructor): boundary-targeted modifies and sets, then (C01) ask on all pairs of boundary positions or (C02) both searches from the boundary positions with thresholds that put the answer at the start position, inside, at the far end and nowhere; judged against prefix sums of the plain array"}));
     if mode == Mode::C01 {
         if let Err(m) = check_from() {
             run.violation(Violation::new("combinator_from", m, json!({"kind": "from"})));
@@ -918,20 +1099,35 @@ fn main() {
     run.cov("transitions", transitions);
     run.cov("traces_validated_against_impl", transitions);
     run.cov("judged_transitions", judged);
+    if mode == Mode::C02 {
+        run.cov("searches_aborted_by_the_predicate", aborted);
+    }
     run.cov("distinct_outcomes", outcomes);
     run.cov("exhaustive", all_closed && !run.has_violations());
     run.cov("parts", Value::Array(table));
-    run.cov("rule", "per (algebra, n): BFS over the real Segtree's node array (hook verif_nodes) + plain-array model; every set/modify/ask (C02: also every lower_bound/lower_bound_rev for every predicate of the family at every position; C01: debug) applied in every reached state; parts without depth_bound run to closure (histories of any length), parts with depth_bound cover all histories up to that depth; all three constructor families are initial states of the closing parts. Parts named Pair<X,Y> are Combinator<X,Y> of one built-in item (MinAdd, MaxAdd, SumAdd, and the non-lazy Min, Max, Sum) and one INDEPENDENT non-commutative harness item (W, A3, the free algebra Fr, Flip), in both positions and one nesting level out; the harness part receives the built-in's modifiers through a fixed translation (i64: +1 -> not / x+1 / letter 1, -1 -> const0 / :=0 / letter 2, +2 -> identity / x+2 / letter 3, 0 -> const1 / :=1 / letter 4; Z4: 1,2,3,0 -> not,const0,identity,const1; (): x+1 on Z3), so modifiers that cancel in the built-in part (+1 then -1, a 0) stay pending in the other part and vice versa; the reference is the pair of the two plain-array models; from_iter of all vectors over two element letters are the initial states. Trait surface: every modifier type is Copy+Debug+Default+Eq+Ord+Hash and every harness item / value type implements the std traits its fields allow, so the engine keeps compiling when the crate tightens a bound; these impls are adversarial, not convenient: T::default() is the merge identity and == is exact, but M::default() is an ordinary NON-identity letter of the explored alphabet wherever the modifiers are not plain additive numbers (W: const0, A3: :=0, Fr: letter 0, AP: the progression (2,3) from index 0, Flip with M = () and FlipZ with M = a zero-sized struct: the complement; Pair/Comb: the shared modifier's default, translated to a non-identity of the harness part), see default_modifiers; the additive alphabets (i64, Z4) contain 0 = default next to +1 and -1. Value sentinels: the i64 elements 0, 1, -2 pass through 0, 1, -1 under the modifiers; MinAdd@MAX / MinAdd@MIN / MaxAdd@MIN / MaxAdd@MAX hold elements equal to both limits of i64 (one of them is the item's Default) with modifiers that move away from the limit; MinAdd+=MAX / MaxAdd+=MIN apply the modifier i64::MAX / i64::MIN itself to elements on the far side of 0; Min<u8> / Max<u8> hold 0 and 255 next to 1, 2, 3; the search thresholds of the i64 items lie around 0 and around every element letter");
-    run.cov("pair_family", json!({"algebras": PAIRS.iter().map(|p| p.0).collect::<Vec<_>>(), "wall_s": (pairs_wall * 100.0).round() / 100.0, "note": "explored side by side (rayon), so the wall_s of the parts overlap; wall_s here is the whole family"}));
+    run.cov("rule", "per (algebra, n): BFS over the real Segtree's node array (hook verif_nodes) + plain-array model; every set/modify/ask (C02: also every lower_bound/lower_bound_rev for every predicate of the family at every position; C01: debug) applied in every reached state; parts without depth_bound run to closure (histories of any length), parts with depth_bound cover all histories up to that depth; all three constructor families are initial states of the closing parts. Parts named Pair<X,Y> are Combinator<X,Y> of one built-in item (MinAdd, MaxAdd, SumAdd, and the non-lazy Min, Max, Sum) and one INDEPENDENT non-commutative harness item (W, A3, the free algebra Fr, Flip), in both positions and one nesting level out; the harness part receives the built-in's modifiers through a fixed translation (i64: +1 -> not / x+1 / letter 1, -1 -> const0 / :=0 / letter 2, +2 -> identity / x+2 / letter 3, 0 -> const1 / :=1 / letter 4; Z4: 1,2,3,0 -> not,const0,identity,const1; (): x+1 on Z3), so modifiers that cancel in the built-in part (+1 then -1, a 0) stay pending in the other part and vice versa; the reference is the pair of the two plain-array models; from_iter of all vectors over two element letters are the initial states. Trait surface: every modifier type is Copy+Debug+Default+Eq+Ord+Hash and every harness item / value type implements the std traits its fields allow, so the engine keeps compiling when the crate tightens a bound; these impls are adversarial, not convenient: T::default() is the merge identity and == is exact, but M::default() is an ordinary NON-identity letter of the explored alphabet wherever the modifiers are not plain additive numbers (W: const0, A3: :=0, Fr: letter 0, AP: the progression (2,3) from index 0, Flip with M = () and FlipZ with M = a zero-sized struct: the complement; Pair/Comb: the shared modifier's default, translated to a non-identity of the harness part), see default_modifiers; the additive alphabets (i64, Z4) contain 0 = default next to +1 and -1. Value sentinels: the i64 elements 0, 1, -2 pass through 0, 1, -1 under the modifiers; MinAdd@MAX / MinAdd@MIN / MaxAdd@MIN / MaxAdd@MAX hold elements equal to both limits of i64 (one of them is the item's Default) with modifiers that move away from the limit; MinAdd+=MAX / MaxAdd+=MIN apply the modifier i64::MAX / i64::MIN itself to elements on the far side of 0; Min<u8> / Max<u8> hold 0 and 255 next to 1, 2, 3; the search thresholds of the i64 items lie around 0 and around every element letter. Scalars that wrap (C01): SumAdd<T> counts the elements of a node IN T, so it is also run over Z/m, m = 2, 3, 4, 5, 7, at the sizes whose trees contain inner nodes of length = 0 and = 1 (mod m) (closure where small, else all histories up to depth_bound; from n = 6 on only from_iter initial states), and the size sweep runs it over a wrapping byte (inner nodes of 256 and 257 elements). Predicate domain (C02): a predicate is offered to a search from position x in a direction iff it is monotone along the searched side of x, nothing is asked of it on blocks reaching to the other side: W (alone and with stale tags) also gets ANCHORED predicates - 'first element is 1 [and a 0 follows]' for lower_bound, 'last element is 0 [and a 1 precedes]' for lower_bound_rev - and the sum thresholds of SumAdd<i64> are offered over elements of both signs wherever the truth values along the searched side are monotone (e.g. a negative element before l). Parts named +aborted-searches (C02): the alphabet also holds searches whose predicate (always-false, len>=2) panics at its 1st / 2nd / 3rd evaluation, caught by the harness; nothing is demanded of the aborted call, but the array must be unchanged and all later operations are judged as usual; such states are kept apart from equal node arrays reached without an abort. large_trees: see there");
+    run.cov("pair_family", json!({"algebras": PAIRS.iter().map(|p| p.0).collect::<Vec<_>>(), "note": "explored side by side (rayon)"}));
+    run.cov("parts_wall_s", json!({"all_parts": (parts_wall * 100.0).round() / 100.0, "note": if quick { "all parts are explored side by side (rayon), so the wall_s of the parts overlap" } else { "the Pair parts are explored side by side (rayon), so their wall_s overlap; the others one after the other" }}));
     run.assume("harness item algebras W, A3, Fr satisfy the monoid-action laws (merge associative with Default as identity, modify distributes over merge, push = apply pending modifiers to both children in order); a node covering one element never records a pending tag (it has no children, so no tree can read it)");
     run.assume("a harness item driven through a translation of another modifier alphabet (Pair parts) is lawful for every translation: the tree never composes modifiers, it only hands each one to the items, and the wrapped item composes and pushes the translated modifiers as before");
     run.assume("integer overflow is outside the domain: a range modification that would take a covered element out of i64 is not offered in that state (skipped_out_of_domain counts them; only MinAdd+=MAX / MaxAdd+=MIN, whose modifier alphabets contain a limit of the type, ever skip), and the alphabets are chosen so that no pending sum of modifiers leaves the type either; SumAdd is not run at the limits of i64 (the sum of two elements would overflow)");
+    run.assume("a panic of the USER'S PREDICATE that the caller catches is not a modification: the searches of the crate keep no state outside the node array and every push is complete before the predicate is called, so the tree stays consistent; panics inside an item's merge / push / update are not explored (they may leave any tree half updated)");
+    run.assume("large trees and the size sweep are directed histories, not closures: they cover size classes (depth of the tree up to 22, every constructor, boundary positions), not all histories");
     run.assume("state identity = encoded node array (all slots, including those the tree never addresses) + plain-array model");
     // non-vacuity
     if !run.has_violations() {
         let w_last = parts.iter().filter(|p| p.name == "W").last().unwrap();
         if w_last.res.states < 1000 || judged < 10_000 || outcomes < 50 {
             run.machinery_failure("exploration implausibly small");
+        }
+        if mode == Mode::C02 && (aborted < 1000 || large_tot.none == 0 || large_tot.at_start == 0 || large_tot.at_far_end == 0 || large_tot.inside == 0) {
+            run.machinery_failure("aborted-search family or large-tree searches implausibly small");
+        }
+        if large_tot.judged < 1000 || large.sizes.iter().all(|n| *n <= 1 << 20) {
+            run.machinery_failure("large-tree part implausibly small");
+        }
+        if mode == Mode::C01 && !parts.iter().any(|p| p.name == "SumAdd<Z7>" && p.n == 8 && p.res.transitions > 0) {
+            run.machinery_failure("no lazy sum over a wrapping scalar at a size with an inner node of length 1 (mod m)");
         }
         let pair_states: u64 = parts.iter().filter(|p| p.name.starts_with("Pair<")).map(|p| p.res.states).sum();
         if pair_states < 100_000 || parts.iter().any(|p| p.name.starts_with("Pair<") && p.res.transitions == 0) {
